@@ -205,6 +205,24 @@ pub fn cmd_sat(a: &Args) {
         ops.push(SOp::Solve(vec![]));
         bigjobs.push(ops);
     }
+    // instances whose DIMACS text exceeds the 64 KiB pipe capacity (an implication chain over 7000-9000 variables): the text must reach the
+    // external solver unchanged however it is cut into writes; same judgement (models satisfy everything, backends agree)
+    if bigwalks > 0 {
+        for nv in [7000isize, 9000] {
+            let mut ops = vec![];
+            for i in 1..nv {
+                ops.push(SOp::Add(vec![-i, i + 1]));
+            }
+            ops.push(SOp::Solve(vec![]));
+            ops.push(SOp::Solve(vec![1]));
+            ops.push(SOp::Solve(vec![1, -nv]));
+            ops.push(SOp::Add(vec![-(nv / 2)]));
+            ops.push(SOp::Solve(vec![1]));
+            ops.push(SOp::Solve(vec![nv / 2 + 1]));
+            ops.push(SOp::Solve(vec![]));
+            bigjobs.push(ops);
+        }
+    }
     let bigres = util::par_map(bigjobs, threads, |ops| {
         util::install_quiet_panic_hook();
         let runs: Vec<Vec<String>> = backends.iter().map(|b| run(b, ops)).collect();
